@@ -1,0 +1,21 @@
+//go:build verif
+
+package cpu
+
+import (
+	"reflect"
+	"runtime"
+)
+
+// VerifOpTable exposes, for the verification harness, which function is registered for which
+// opcode in a CPU freshly built for the given model (the name the Go runtime reports for it).
+func VerifOpTable(m CpuModel) map[uint8]string {
+	c := New6502(m)
+	res := map[uint8]string{}
+
+	for code, f := range c.opCodes {
+		res[code] = runtime.FuncForPC(reflect.ValueOf(f).Pointer()).Name()
+	}
+
+	return res
+}
